@@ -93,7 +93,12 @@ def channel(w, order):
         return S
     real_shared, real_cipher = M.get_shared_key, M.create_aes_ctr_cipher
     M.get_shared_key = shared
-    M.create_aes_ctr_cipher = lambda key, iv: _Cipher(key, iv)
+    made = []
+
+    def mk_cipher(key, iv):
+        made.append((key, iv))
+        return _Cipher(key, iv)
+    M.create_aes_ctr_cipher = mk_cipher
     try:
         A = M.AdnlChannel(pa, pb, a, b)
         B = M.AdnlChannel(pb, pa, b, a)
@@ -114,7 +119,10 @@ def channel(w, order):
         n = w.choice('n', [0, 1, 16, 77])
         x = w.bytes('x', n)
         for (X, Y, tag) in ((A, B, 'A->B'), (B, A, 'B->A')):
+            n0 = len(made)
+            X.encrypt(x)
             pkt = X.encrypt(x)
+            w.claim(f'{tag}: every encrypt derives a FRESH cipher (CTR ciphers are stateful: no reuse across calls)', len(made) == n0 + 2)
             h = w.uf('sha256', w.bytes_seq(x))
             w.claim(f'{tag}: packet is key id ++ SHA256(x) ++ ciphertext', False if not hasattr(pkt, 'parts') else
                     w.And(len(pkt.parts[3]) == 64, pkt.parts[0] == Y.server_aes_key_id, pkt.parts[1] == h))
@@ -125,7 +133,10 @@ def channel(w, order):
                 iv = h[0:4] + X.enc_key[20:32]
                 w.claim(f'{tag}: AES key = k[0:16] ++ h[16:32], counter block = h[0:4] ++ k[20:32]',
                         ct[0] == 'aes-ctr' and w.And(ct[1] == key, ct[2] == iv) and ct[3] is x)
+                n1 = len(made)
+                Y.decrypt(ctobj, pkt.parts[1])
                 dec = Y.decrypt(ctobj, pkt.parts[1])
+                w.claim(f'{tag}: every decrypt derives a fresh cipher', len(made) == n1 + 2)
                 w.claim(f'{tag}: the peer decrypts with the same key and counter block, i.e. recovers x',
                         dec[0] == 'aes-ctr-dec' and w.And(dec[1] == ct[1], dec[2] == ct[2]) and dec[3] is ctobj)
     finally:
@@ -168,6 +179,10 @@ def native(w):
         w.claim('packet layout: key id ++ sha256 ++ ciphertext of equal length', len(pkt) == 64 + n and pkt[32:64] == hashlib.sha256(x).digest())
         w.claim('key id is the one the peer expects', pkt[:32] == Y.server_aes_key_id)
         w.claim('peer decrypts exactly the plaintext', Y.decrypt(pkt[64:], pkt[32:64]) == x)
+        w.claim('duplicate delivery: decrypting the same packet again gives the plaintext again', Y.decrypt(pkt[64:], pkt[32:64]) == x)
+        pkt2 = X.encrypt(x)
+        w.claim('retransmission: encrypting the same plaintext again gives the same packet', pkt2 == pkt)
+        w.claim('retransmission decrypts', Y.decrypt(pkt2[64:], pkt2[32:64]) == x)
     # signatures
     msg = bytes(rng.getrandbits(8) for _ in range(rng.choice([0, 1, 32, 200])))
     sig = ca.sign(msg)
@@ -183,6 +198,43 @@ def native(w):
     i = rng.randrange(64)
     bs = sig[:i] + bytes([sig[i] ^ (1 << rng.randrange(8))]) + sig[i + 1:]
     w.claim('fails for an altered signature', SG.verify_sign(pk, msg, bs) is False)
+    for alt in (sig + b'\x00', sig + msg, sig + sig, sig[:63], b''):
+        if alt == sig:
+            continue
+        ka, ra = call(SG.verify_sign, pk, msg, alt)
+        w.claim(f'a signature of another length ({len(alt)} bytes) does not verify', ka == 'raise' or ra is False)
+
+
+@obligation('C20.verify', 'C20', cases=[{'accept': a} for a in (True, False)], assumes=[T6],
+            fuc=['pytoniq_core.crypto.signature.verify_sign'],
+            descr='verify_sign(pk, m, s) with PyNaCl\'s VerifyKey replaced by a recording model: the library hands EXACTLY the given key, message '
+                  'and signature to the primitive (no truncation, slicing or re-encoding: the same objects), once, and returns True iff the '
+                  'primitive accepts, False iff it raises BadSignatureError - so every signature the primitive rejects (other message, other '
+                  'key, altered or length-extended signature) is rejected by the helper')
+def verify(w, accept):
+    SG = importlib.import_module('pytoniq_core.crypto.signature')
+    pk, m, s = w.bytes('pk', 32), w.bytes('m', w.choice('mlen', [0, 5, 100])), w.bytes('s', w.choice('slen', [64, 65, 128, 10]))
+    seen = []
+
+    class VK:
+        def __init__(self, key):
+            seen.append(('key', key))
+
+        def verify(self, smessage, signature=None):
+            seen.append(('verify', smessage, signature))
+            if not accept:
+                raise SG.exc.BadSignatureError('model')
+            return smessage
+    real = SG.VerifyKey
+    SG.VerifyKey = VK
+    try:
+        k, r = call(SG.verify_sign, pk, m, s)
+    finally:
+        SG.VerifyKey = real
+    w.claim('does not raise', k == 'ok')
+    w.claim('result is the primitive\'s verdict', k == 'ok' and r is accept)
+    w.claim('the primitive receives exactly the given key, message and signature, once',
+            len(seen) == 2 and seen[0][1] is pk and seen[1][1] is m and seen[1][2] is s)
 
 
 @obligation('C20.mnemonic', 'C20', kind='bounded', samples=6,
